@@ -253,6 +253,27 @@ theorem C19_rep_bound_forecast (G : Grammar) (rank : String → Nat) (F : Nat)
     have := this.1
     omega
 
+/-- **the documented repetition limit**: with an open upper bound read as the cap (`capNode`), after
+    `k` iterations of `a* e` / `a{lo,} e` the body can follow iff `k < cap` — so after the `cap`-th
+    iteration it is *not* a continuation (what `visitRepetitionType` implements with `node.max`) -/
+theorem C19_open_bound_is_cap (G : Grammar) (a e : Msg) (hne : a ≠ e) (lo cap k : Nat) :
+    (Cont G (capNode cap (repThenExit a e lo none)) (List.replicate k a) a ↔ k < cap ∧ lo ≤ cap) ∧
+    (Cont G (capNode cap (repThenExit a e lo none)) (List.replicate k a) e ↔ lo ≤ k ∧ k ≤ cap) := by
+  have hc : capNode cap (repThenExit a e lo none) = repThenExit a e lo (some cap) := by
+    simp [repThenExit, capNode, capNodes, atom]
+  rw [hc]
+  have := C19_rep_bound_respected G a e hne lo (some cap) k
+  constructor
+  · rw [this.1]
+    constructor
+    · intro h; exact h cap rfl
+    · intro h mx hmx; cases hmx; exact h
+  · rw [this.2]
+    unfold inBounds
+    constructor
+    · intro h; exact ⟨h.1, h.2 cap rfl⟩
+    · intro h; exact ⟨h.1, fun mx hmx => by cases hmx; exact h.2⟩
+
 /-! ## non-vacuity: an FTP/SMTP-style right-recursive protocol -/
 
 def mA : Msg := ⟨"C", some "S", "<a>"⟩
@@ -311,6 +332,42 @@ theorem C19_fixed_visitor_on_witness :
 theorem C19_code_empty_history_never_complete :
     let G : Grammar := { rules := [("<start>", .rep "o1" .opt (atom mA) 0 (some 1))] }
     complete G 2 exStarStart [] = true ∧ codeComplete G 2 exStarStart [] = false := by
+  decide
+
+/-! ## (d) slicing: what `slice_parties` computes is not the visible projection
+
+No general slicing theorem is proved.  `sliceG` models `slice_parties`/`PacketTruncator` line by line (tied to
+the real function rule by rule on every run); the two witnesses below are the machine-checked reasons why the
+projection property fails for it, each replayed on the implementation by the check. -/
+
+def sA0 : Msg := ⟨"A", some "B", "<m0>"⟩
+def sB1 : Msg := ⟨"B", some "C", "<m1>"⟩
+def sA2 : Msg := ⟨"A", some "B", "<m2>"⟩
+def sC1 : Msg := ⟨"C", some "A", "<m1>"⟩
+
+/-- `<start> ::= <A:B:m0> (<B:C:m1> | <A:B:m2>)` -/
+def exSlice : Grammar :=
+  { rules := [("<start>", .cat "c1" [atom sA0, .alt "a1" [atom sB1, atom sA2]])] }
+
+/-- **an alternative that consists of invisible messages is deleted, not emptied**: `m0 m1` is an interaction,
+    its part visible to `A` is `m0`, and `m0` is not an interaction of the sliced grammar -/
+theorem C19_slice_drops_invisible_alternative :
+    complete exSlice 2 exStarStart [sA0, sB1] = true ∧
+    project ⟨["A"], false, false⟩ [sA0, sB1] = [sA0] ∧
+    complete (sliceG ⟨["A"], false, false⟩ exSlice) 2 exStarStart [sA0] = false ∧
+    isPrefix (sliceG ⟨["A"], false, false⟩ exSlice) 2 exStarStart [sA0] = true := by
+  decide
+
+/-- `<start> ::= (<C:A:m1> | <B:C:m1> | <A:B:m2>)` -/
+def exSliceEq : Grammar :=
+  { rules := [("<start>", .alt "a1" [atom sC1, atom sB1, atom sA2])] }
+
+/-- **`list.remove(child)` removes the first child with the same symbol**: slicing to `A` must drop the
+    invisible `<B:C:m1>`; removal by `==` (the code) drops the visible `<C:A:m1>` instead -/
+theorem C19_slice_removes_first_equal :
+    nexts (sliceG ⟨["A"], false, true⟩ exSliceEq) 2 exStarStart [] = [sB1, sA2] ∧
+    nexts (sliceG ⟨["A"], false, false⟩ exSliceEq) 2 exStarStart [] = [sC1, sA2] ∧
+    visible ⟨["A"], false, true⟩ sB1 = false ∧ visible ⟨["A"], false, true⟩ sC1 = true := by
   decide
 
 end Fc
